@@ -698,6 +698,65 @@ package rueidis
 //@   ensures [C20 placement-and-transaction-flag-come-from-the-same-pick] result2 == nil ==> (result0 == first(returned(_pickMulti)) && result1 == second(returned(_pickMulti)) && result0 != nil)
 
 // ---------------------------------------------------------------------------------------------
+// C33 — a command is handed back to the builder's pool only after its latest send came back without a
+// transport-level error, and the caller gets the reply of that latest send (client.go, cluster.go, sentinel.go).
+//@ func singleClient.Do #c33
+//@   modifies *
+//@   assert [C33 recycled-only-after-a-clean-reply-to-the-latest-send] at PutCompleted: arg0 == cmd && returned(Do).err == nil
+//@   ensures [C33 caller-gets-the-reply-of-the-latest-send] resp == returned(Do)
+//@ func sentinelClient.Do #c33
+//@   modifies *
+//@   assert [C33 recycled-only-after-a-clean-reply-to-the-latest-send] at PutCompleted: arg0 == cmd && returned(Do).err == nil
+//@   ensures [C33 caller-gets-the-reply-of-the-latest-send] resp == returned(Do)
+//@ func clusterClient.Do #c33
+//@   modifies *
+//@   assert [C33 recycled-only-after-a-clean-reply-to-the-latest-send] at PutCompleted: arg0 == cmd && returned(do).err == nil
+//@   ensures [C33 caller-gets-the-reply-of-the-latest-send] resp == returned(do)
+// a batch that may be sent again has none of its commands recycled yet
+//@ func dedicatedSingleClient.DoMulti #c33
+//@   modifies *
+//@   assert [C33 nothing-is-recycled-before-the-last-send-of-the-batch] at DoMulti: calls(PutCompleted) == 0
+//@   loop 0: invariant [C33] calls(PutCompleted) == 0
+//@   loop 1: invariant [C33] calls(PutCompleted) == 0
+//@   assert [C33 recycled-only-after-a-clean-reply] at PutCompleted: arg0 == multi[i] && resp[i].err == nil
+//@ func singleClient.DoMulti #c33
+//@   modifies *
+//@   loop 0: invariant [C33] calls(PutCompleted) == 0
+//@   loop 1: invariant [C33] calls(PutCompleted) == 0
+//@   loop 2: invariant [C33] calls(PutCompleted) == 0
+//@   loop 3: invariant [C33] calls(PutCompleted) == 0
+//@   assert [C33 nothing-is-recycled-before-the-last-send-of-the-batch] at DoMulti: calls(PutCompleted) == 0
+//@   assert [C33 recycled-only-after-a-clean-reply] at PutCompleted: arg0 == multi[i] && resps[i].err == nil
+//@ func sentinelClient.DoMulti #c33
+//@   modifies *
+//@   loop 0: invariant [C33] calls(PutCompleted) == 0
+//@   loop 1: invariant [C33] calls(PutCompleted) == 0
+//@   loop 2: invariant [C33] calls(PutCompleted) == 0
+//@   loop 3: invariant [C33] calls(PutCompleted) == 0
+//@   assert [C33 nothing-is-recycled-before-the-last-send-of-the-batch] at DoMulti: calls(PutCompleted) == 0
+//@   assert [C33 recycled-only-after-a-clean-reply] at PutCompleted: arg0 == multi[i] && resps.s[i].err == nil
+//@ func dedicatedClusterClient.DoMulti #c33
+//@   modifies *
+//@   loop 0: invariant [C33] calls(PutCompleted) == 0
+//@   loop 1: invariant [C33] calls(PutCompleted) == 0
+//@   loop 2: invariant [C33] calls(PutCompleted) == 0
+//@   assert [C33 nothing-is-recycled-before-the-last-send-of-the-batch] at DoMulti: calls(PutCompleted) == 0
+//@   assert [C33 recycled-only-after-a-clean-reply] at PutCompleted: arg0 == multi[i] && resp[i].err == nil
+//@ func clusterClient.DoMulti #c33
+//@   modifies *
+//@   loop 0: invariant [C33] calls(PutCompleted) == 0
+//@   loop 1: invariant [C33] calls(PutCompleted) == 0
+//@   assert [C33 nothing-is-recycled-before-the-last-send-of-the-batch] at doretry: calls(PutCompleted) == 0
+//@   assert [C33 recycled-only-after-a-clean-reply] at PutCompleted: arg0 == multi[i] && results.s[i].err == nil
+
+//@ func dedicatedSingleClient.Do #c33
+//@   modifies *
+//@   assert [C33 recycled-only-after-a-clean-reply-to-the-latest-send] at PutCompleted: arg0 == cmd && returned(Do).err == nil && resp == returned(Do)
+//@ func dedicatedClusterClient.Do #c33
+//@   modifies *
+//@   assert [C33 recycled-only-after-a-clean-reply-to-the-latest-send] at PutCompleted: arg0 == cmd && returned(Do).err == nil && resp == returned(Do)
+
+// ---------------------------------------------------------------------------------------------
 // C07 — cached replies expire at the earlier of the client TTL and the server PTTL (message.go, lru.go).
 // The expiry of a cached message is the 56-bit little-endian number kept in RedisMessage.ttl (0 = none).
 //@ func RedisMessage.setExpireAt
